@@ -8,11 +8,13 @@ def parseDReg (s : String) : Option DReg :=
   if s == "s" then some .sp else if s == "f" then some .fp else if s == "a" then some .ra
   else if s == "o" then some .other else none
 
-/-- `s:10`, `f:-8`, `o:0`, `e` -/
+/-- `s:10`, `f:-8`, `o:0`, `e`, `Es:10` (expression `breg<s> + 0x10`) -/
 def parseCfa (s : String) : Option CfaRule :=
   match s.splitOn ":" with
   | ["e"] => some .expr
-  | [r, off] => do pure (.regOff (← parseDReg r) (← parseHexInt off))
+  | [r, off] =>
+    if r.startsWith "E" then do pure (.exprRegOff (← parseDReg (r.drop 1).toString) (← parseHexInt off))
+    else do pure (.regOff (← parseDReg r) (← parseHexInt off))
   | _ => none
 
 /-- `u`, `s`, `o:-8`, `v:10`, `r:s`, `x` -/
@@ -24,6 +26,10 @@ def parseRegRule (s : String) : Option RegRule :=
   | ["o", n] => (parseHexInt n).map .offset
   | ["v", n] => (parseHexInt n).map .valOffset
   | ["r", r] => (parseDReg r).map .register
+  | [k, off] =>
+    if k.startsWith "X" then do pure (.exprReg (← parseDReg (k.drop 1).toString) (← parseHexInt off))
+    else if k.startsWith "V" then do pure (.valExprReg (← parseDReg (k.drop 1).toString) (← parseHexInt off))
+    else none
   | _ => none
 
 /-- `off/cfa/fp/ra` -/
